@@ -23,13 +23,13 @@ import Gama.Scalar
 namespace Gama
 
 /-- what C09 needs from libm beyond `Scalar` -/
-class Trig (K : Type) where
+class StatsTrig (K : Type) where
   /-- C `atan2(y, x)` -/
   atan2 : K → K → K
   /-- the literal `M_PI` -/
   pi : K
 
-instance : Trig Float := ⟨Float.atan2, 3.14159265358979323846⟩
+instance : StatsTrig Float := ⟨Float.atan2, 3.14159265358979323846⟩
 
 namespace Stats
 
@@ -97,7 +97,7 @@ def obsControl (qbb : K) : K := Scalar.ofNat 100 * Scalar.abs (1 - Scalar.sqrt q
 /-- `LocalNetwork::std_error_ellipse` after the three `q_xx` reads
     (`cyy = q_xx(iy,iy)`, `cyx = q_xx(iy,ix)`, `cxx = q_xx(ix,ix)`, `m = m_0()`);
     result `(a, b, alfa)` -/
-def stdErrorEllipse [Trig K] (cyy cyx cxx m : K) : K × K × K :=
+def stdErrorEllipse [StatsTrig K] (cyy cyx cxx m : K) : K × K × K :=
   let c := Scalar.sqrt ((cxx - cyy) * (cxx - cyy) + Scalar.ofNat 4 * cyx * cyx)
   let b := (cyy + cxx - c) / Scalar.ofNat 2
   let b := if b < 0 then 0 else b
@@ -105,8 +105,8 @@ def stdErrorEllipse [Trig K] (cyy cyx cxx m : K) : K × K × K :=
   let b := m * Scalar.sqrt b
   if Scalar.beq c 0 then (a, b, 0)
   else
-    let alfa := Trig.atan2 (Scalar.ofNat 2 * cyx) (cxx - cyy) / Scalar.ofNat 2
-    let alfa := if alfa < 0 then alfa + Trig.pi else alfa
+    let alfa := StatsTrig.atan2 (Scalar.ofNat 2 * cyx) (cxx - cyy) / Scalar.ofNat 2
+    let alfa := if alfa < 0 then alfa + StatsTrig.pi else alfa
     (a, b, alfa)
 
 /-! XML writer (`LocalNetworkXML`), the derived numbers it prints -/
@@ -127,6 +127,10 @@ def xmlRatio (phi sigmaApr : K) (dof : Int) : K :=
 def errObsAdj (v qvv w : K) : K × K :=
   let em := v / (qvv * w)
   (em, em - v)
+
+/-- text writers (`results/text/adjusted_unknowns.h`, `adjusted_observations.h`): the confidence
+    half-width printed next to a standard deviation, `m*kki` with `kki = IS->conf_int_coef()` -/
+def confHalfWidth (stdev kki : K) : K := stdev * kki
 
 /-- everything `LocalNetwork` reports for one observation, from its inputs -/
 structure ObsStats (K : Type) where
